@@ -37,6 +37,6 @@ for p in "${!byprop[@]}"; do
 done
 wait
 missed=0
-for id in $ids; do grep -q 'exit=1' /var/tmp/seedlogs/regress-$id.try || { echo "MISSED: $id"; missed=$((missed+1)); }; done
+for id in $ids; do grep -q 'exit=1' /var/tmp/seedlogs/regress-$id.try || { if grep -q '"neutralised"' /verif/seeded/$id/meta.json; then echo "not caught, neutralised by a later fix: $id"; else echo "MISSED: $id"; missed=$((missed+1)); fi; }; done
 echo "missed: $missed"
 [ $missed -eq 0 ]
